@@ -7,7 +7,7 @@ import lmcommon as lc
 DRV = os.path.join(vlib.ROOT, "harness", "drivers", "lmq.cc")
 
 
-def compare_case(ctx, m, sess, lmq, model_exe, queries, types, stats, check_model=True, label=""):
+def compare_case(ctx, m, sess, lmq, model_exe, queries, types, stats, check_model=True, label="", binary=False):
     """runs the implementation structures + extracted model on one generated model; returns list of problems:
     (signature, what, replay_obj, found_input)"""
     problems = []
@@ -32,7 +32,29 @@ def compare_case(ctx, m, sess, lmq, model_exe, queries, types, stats, check_mode
             pb = ctx.rng.range(6, 12)
             bb = ctx.rng.choice([b for b in range(6, 13) if b != pb])
             qopts = ["probbits=%d" % pb, "backoffbits=%d" % bb]
-        r = sess.run_impl(lmq, typ, queries, opts=qopts)
+        wopts = None
+        if binary:
+            # the same structure written to a binary file (either write method, with or without the strings) and loaded back: the answers
+            # owe the same specification (sixth-round seeded change C01-16 misplaced the search structure of WRITE_AFTER files without <unk>)
+            import os
+            binf = os.path.join(sess.dir, "c01.%s.bin" % typ)
+            wopts = ["write_mmap=" + binf, "write_method=" + ctx.rng.choice(["mmap", "after"]), "include_vocab=%d" % ctx.rng.below(2)]
+            w = sess.run_impl(lmq, typ, queries[:1], opts=qopts + wopts)
+            stats["impl_runs"] = stats.get("impl_runs", 0) + 1
+            if not w["head"].startswith("loaded") or not os.path.exists(binf):
+                continue
+            r = sess.run_impl(lmq, typ, queries, model_file=binf)
+            stats["binary_loads"] = stats.get("binary_loads", 0) + 1
+            try:
+                os.remove(binf)
+            except OSError:
+                pass
+            if not r["head"].startswith("loaded"):
+                problems.append(("spec:binary-reload-fails:" + typ, "the binary file written with %r does not load: %s" % (wopts, r["head"][:120]),
+                                 dict({"arpa": m.arpa_bytes().decode("latin-1"), "vocab": m.vocab_bytes().decode("latin-1")}, type=typ, opts=qopts + wopts), True))
+                continue
+        else:
+            r = sess.run_impl(lmq, typ, queries, opts=qopts)
         stats["impl_runs"] = stats.get("impl_runs", 0) + 1
         if not r["head"].startswith("loaded"):
             kind = r["head"]
@@ -134,6 +156,11 @@ def run(ctx):
         else:
             qs = lc.gen_queries(rng, m, ctx.pick(40, 150))
         probs = compare_case(ctx, m, sess, lmq, model_exe, qs, lc.TYPES, stats)
+        if mi % 3 == 1 and not ctx.replay_model and len(probs) == 0:
+            two = list(lc.TYPES)
+            rng.shuffle(two)
+            probs += [(sig + ":binary", what, rq, found) for sig, what, rq, found in
+                      compare_case(ctx, m, sess, lmq, model_exe, qs[:60], two[:2], stats, check_model=False, binary=True)]
         if not m.suffix_closed():
             stats["pruned_models"] = stats.get("pruned_models", 0) + 1
         if not m.saw_unk:
